@@ -19,7 +19,8 @@ package syncer
 
 //@ pure dist(h *historyBuffer, j int) = ite(j < h.head, j + h.size - h.head, j - h.head)
 //@ pure cnt(h *historyBuffer) = dist(h, h.tail)
-//@ pure wf(h *historyBuffer) = h.size >= 2 && h.size <= MaxInt32 && len(h.records) == h.size && 0 <= h.head && h.head < h.size && 0 <= h.tail && h.tail < h.size && h.index >= cnt(h)
+//@ pure wf0(h *historyBuffer) = h.size >= 2 && h.size <= MaxInt32 && len(h.records) == h.size && 0 <= h.head && h.head < h.size && 0 <= h.tail && h.tail < h.size
+//@ pure wf(h *historyBuffer) = wf0(h) && h.index >= cnt(h)
 //@ pure slot(h *historyBuffer, k int) = ite(h.head + k < h.size, h.head + k, h.head + k - h.size)
 //@ pure first(h *historyBuffer) = h.index - cnt(h)
 // The index stored under "historyIndex" and the bound that a restart relies on: as long as the periodic saves
@@ -29,7 +30,7 @@ package syncer
 
 //@ func (*historyBuffer).distanceToTail
 //@   props C16
-//@   requires wf(h) && 0 <= pos && pos < h.size
+//@   requires wf0(h) && 0 <= pos && pos < h.size
 //@   ensures result == ite(h.tail < pos, h.tail + h.size - pos, h.tail - pos)
 //@   ensures 0 <= result && result < h.size
 //@   modifies nothing
@@ -43,17 +44,19 @@ package syncer
 
 //@ func (*historyBuffer).Record
 //@   props C16
-//@   requires wf(h) && h.index < MaxUint64 && 0 < h.flushCount && h.flushCount <= 100
-//@   ensures [wf] wf(h)
-//@   ensures [index] h.index == old(h.index) + 1
-//@   ensures [count] cnt(h) == min(old(cnt(h)) + 1, h.size - 1)
-//@   ensures [first] first(h) >= old(first(h))
-//@   ensures [newest] h.records[slot(h, cnt(h) - 1)] == r
-//@   ensures [window] forall i :: first(h) <= i && i < h.index - 1 ==> h.records[slot(h, i - first(h))] == old(h.records[slot(h, i - first(h))])
+//@   requires wf0(h) && 0 < h.flushCount && h.flushCount <= 100
+//@   ensures [wf] old(wf(h)) && old(h.index) < MaxUint64 ==> (wf(h))
+//@   ensures [index] old(wf(h)) && old(h.index) < MaxUint64 ==> (h.index == old(h.index) + 1)
+//@   ensures [count] old(wf(h)) && old(h.index) < MaxUint64 ==> (cnt(h) == min(old(cnt(h)) + 1, h.size - 1))
+//@   ensures [first] old(wf(h)) && old(h.index) < MaxUint64 ==> (first(h) >= old(first(h)))
+//@   ensures [newest] old(wf(h)) && old(h.index) < MaxUint64 ==> (h.records[slot(h, cnt(h) - 1)] == r)
+//@   ensures [window] old(wf(h)) && old(h.index) < MaxUint64 ==> (forall i :: first(h) <= i && i < h.index - 1 ==> h.records[slot(h, i - first(h))] == old(h.records[slot(h, i - first(h))]))
+//@   ensures [shape] wf0(h)
+//@   ensures [index-wraps] h.index == (old(h.index) + 1) % 18446744073709551616
 //@   ensures [flush] 0 < h.flushCount && h.flushCount <= 100
 //@   ensures [persist-on-flush] old(h.flushCount) == 1 ==> (kvhas["historyIndex"] && persistedIndex() == h.index) || (kvval == old(kvval) && kvhas == old(kvhas))
 //@   ensures [persist-only-on-flush] old(h.flushCount) != 1 ==> kvval == old(kvval) && kvhas == old(kvhas)
-//@   ensures [lag] old(lagOK(h)) ==> lagOK(h) || (old(h.flushCount) == 1 && last("kvSave") > old(evclock[0]) && kvval == old(kvval) && kvhas == old(kvhas))
+//@   ensures [lag] old(wf(h)) && old(h.index) < MaxUint64 ==> (old(lagOK(h)) ==> lagOK(h) || (old(h.flushCount) == 1 && last("kvSave") > old(evclock[0]) && kvval == old(kvval) && kvhas == old(kvhas)))
 //@   modifies h.index, h.head, h.tail, h.flushCount, h.records[*], ghost kvhas, ghost kvval
 
 //@ func (*historyBuffer).RecordsFrom
@@ -66,6 +69,24 @@ package syncer
 //@   loop 1 invariant 0 <= i && i < h.size && first(h) <= index && index < h.index
 //@   loop 1 invariant dist(h, i) == index - first(h) + len(records) && dist(h, i) <= cnt(h)
 //@   loop 1 invariant forall k :: 0 <= k && k < len(records) ==> records[k] == h.records[slot(h, index - first(h) + k)]
+
+// RunServer (the leader's broadcast loop): every live batch is labelled with the log index of its first region -
+// StartIndex is the next index read BEFORE the first region of the batch is recorded, and every region put into the
+// batch is recorded exactly once (index arithmetic modulo 2^64, as the code's).
+//@ func (*RegionSyncer).RunServer
+//@   props C16
+//@   requires s != nil && s.history != nil && wf0(s.history) && 0 < s.history.flushCount && s.history.flushCount <= 100
+//@   at broadcast 1 assert [a-batch-is-labelled-with-the-index-of-its-first-region] (regions.StartIndex + len(regions.Regions)) % 18446744073709551616 == s.history.index
+//@   loop 1 invariant wf0(s.history) && 0 < s.history.flushCount && s.history.flushCount <= 100 && len(requests) == 0
+//@   loop 2 invariant wf0(s.history) && 0 < s.history.flushCount && s.history.flushCount <= 100 && (startIndex + len(requests)) % 18446744073709551616 == s.history.index
+//@   loop 1 modifies s.history.index, s.history.head, s.history.tail, s.history.flushCount, s.history.records[*], s.mu.streams[*], ghost kvhas, ghost kvval, ghost evres
+//@   loop 2 modifies s.history.index, s.history.head, s.history.tail, s.history.flushCount, s.history.records[*], s.mu.streams[*], ghost kvhas, ghost kvval, ghost evres
+//@   option nosafety
+//@   modifies *
+
+//@ func (*RegionSyncer).broadcast
+//@   assumed
+//@   modifies s.mu.streams[*]
 
 // The leader-side cluster view handed to the syncer: the cache never holds nil regions.
 //@ func (Server).GetRegions
